@@ -59,3 +59,48 @@ package file
 //@   loop 2: invariant offset#1 + (rangeindex * (hdr.squareSize/2) + colIdx + 1) * 512 > fsize(r)
 //@   loop 2: invariant forall j int :: 0 <= j && j < rangeindex ==> shares[j] == ((offset#1 + (j * (hdr.squareSize/2) + colIdx + 1) * 512 <= fsize(r)) ? shareAt(r, offset#1 + (j * (hdr.squareSize/2) + colIdx) * 512) : tailPad())
 //@   loop 2: invariant forall j int :: rangeindex <= j && j < i ==> shares[j] == tailPad()
+
+// Dispatch by axis type: a row half is a row of the row-major region, a column half a column of it.
+//@ func readAxisHalf
+//@   property C05
+//@   requires hdr != nil && hdr.shareSize == 512 && hdr.squareSize >= 2 && axisIdx >= 0 && axisIdx < hdr.squareSize / 2 && offset >= 0
+//@   requires fsize(r) >= offset && mod(fsize(r) - offset, 512) == 0
+//@   ensures err == nil ==> (axisTp == 0 || axisTp == 1) && len(result0) == hdr.squareSize / 2
+//@   ensures err == nil && axisTp == 0 ==> forall i int :: 0 <= i && i < hdr.squareSize / 2 ==> result0[i] == ((offset + (axisIdx * (hdr.squareSize/2) + i + 1) * 512 <= fsize(r)) ? shareAt(r, offset + (axisIdx * (hdr.squareSize/2) + i) * 512) : tailPad())
+//@   ensures err == nil && axisTp == 1 ==> forall i int :: 0 <= i && i < hdr.squareSize / 2 ==> result0[i] == ((offset + (i * (hdr.squareSize/2) + axisIdx + 1) * 512 <= fsize(r)) ? shareAt(r, offset + (i * (hdr.squareSize/2) + axisIdx) * 512) : tailPad())
+
+// The in-memory original square: rows are stored directly, a column half collects cell axisIdx of
+// every row. squareOK: the square is n rows of n shares.
+//@ pure func squareOK(s square) bool = forall i int :: 0 <= i && i < len(s) ==> len(s[i]) == len(s)
+
+//@ func (square).size
+//@   property C05
+//@   pure
+//@   ensures result == len(s)
+
+//@ func (square).axisHalf
+//@   property C05
+//@   nopanic
+//@   requires squareOK(s) && axisIdx >= 0
+//@   ensures err == nil ==> s != nil && axisIdx < len(s) && !result0.IsParity && len(result0.Shares) == len(s)
+//@   ensures err == nil && axisType == 0 ==> result0.Shares == s[axisIdx]
+//@   ensures err == nil && axisType != 0 ==> forall i int :: 0 <= i && i < len(s) ==> result0.Shares[i] == s[i][axisIdx]
+//@   loop 1: invariant 0 <= rangeiter && rangeiter < len(s) && len(col) == len(s) && isFresh(col)
+//@   loop 1: invariant forall j int :: 0 <= j && j < rangeiter ==> col[j] == s[j][axisIdx]
+
+// The share list has one entry per cell. (That entry i*n+j is cell (i,j) is index arithmetic with a
+// product of two unknowns and is not claimed: no solver here decides it inside a quantifier.)
+//@ func (square).shares
+//@   property C05
+//@   requires squareOK(s)
+//@   ensures err == nil && len(result0) == len(s) * len(s)
+//@   loop 1: invariant -1 <= rangeindex && rangeindex < len(s) && len(shares) == (rangeindex + 1) * len(s)
+
+// Row i of the square read from a stream is the i-th run of odsLn shares of the share list.
+//@ func readSquare
+//@   property C05
+//@   requires edsSize >= 2 && shareSize >= 0
+//@   ensures err == nil ==> len(result0) == edsSize / 2 && squareOK(result0)
+//@   checks err == nil ==> forall i int :: 0 <= i && i < edsSize / 2 ==> square[i] == shares[i*(edsSize/2):(i+1)*(edsSize/2)]
+//@   loop 1: invariant -1 <= rangeindex && rangeindex < len(square) && len(square) == odsLn && len(shares) == odsLn*odsLn && odsLn == edsSize / 2 && isFresh(square)
+//@   loop 1: invariant forall i int :: 0 <= i && i <= rangeindex ==> square[i] == shares[i*odsLn:(i+1)*odsLn]
